@@ -128,7 +128,13 @@ func NewChaos(w *World, o ChaosOpts) *Chaos {
 				// leave pending: a script decides later (or never: stalled connect)
 				w.Fault("dial-stalled")
 				w.Go("late-dial", func() {
-					w.Sleep(time.Duration(w.Range(0, 8000, "latedialms")) * time.Millisecond)
+					if w.Chance(1, 3, "latedial-at-retry") {
+						// complete (or refuse) the connect right around the connect-retry expiry
+						w.Sleep(cp.Spec.ConnectRetry + time.Duration(w.Range(-3, 3, "latedial-eps"))*time.Millisecond)
+						w.Probe("dial-answered-at-connect-retry-expiry")
+					} else {
+						w.Sleep(time.Duration(w.Range(0, 8000, "latedialms")) * time.Millisecond)
+					}
 					switch w.Draw(3, "latedial") {
 					case 0:
 						if c := d.Accept(); c != nil {
@@ -302,8 +308,15 @@ func (ch *Chaos) deviate(cp *ChaosPeer, c *Conn, dev int) {
 			stream = append(stream, MkRawHeader(m, 20, 3, []byte{6})...)
 		}
 		c.SendSeg(stream)
-		w.WaitUntil("dev.garbage", 10*time.Second, c.LocalClosed)
-		c.FIN()
+		switch w.Draw(4, "gclose") {
+		case 1: // two errors in one round: the fault and a TCP close
+			c.FIN()
+		case 2:
+			c.RST()
+		default:
+			w.WaitUntil("dev.garbage", 10*time.Second, c.LocalClosed)
+			c.FIN()
+		}
 	case devBadMsg:
 		// OPEN is illegal in OpenConfirm/Established, fine (a second OPEN) in none: use it everywhere but OpenSent
 		c.SendSeg(MkFrame(MsgOpen, GoodOpen(cp.Spec.RemoteAS, cp.RemoteHold, IPToU32(cp.RemoteID))))
